@@ -7,8 +7,9 @@ from vlib.engine import Disc, Outcome
 PID = 'C20'
 RULE = ('Hypothesis: identity = any subset of object ids 0-6 and 0x80-0xFF with values (ASCII str or bytes) of length 0..245, '
         'size-biased so that empty objects, single-page and many-page answers all occur; read code 1-4; start id = 0, a '
-        'populated id of the category, or any other id. Installed through ModbusControlBlock().Identity[...] after a reset of '
-        'the process-wide control block. Oracle: follow the chain as a client does (request -> ServerDecoder -> execute -> '
+        'populated id of the category, or any other id. Installed after a reset of the process-wide control block in one of three ways: item '
+        'assignment on ModbusControlBlock().Identity, the named attributes (VendorName ...), or Identity.update(ModbusDeviceIdentification(info=...)) as '
+        'the server constructors do. Oracle: follow the chain as a client does (request -> ServerDecoder -> execute -> '
         'encode -> ClientDecoder; continue at next_object_id while more_follows == 0xFF; give up after #objects+2 pages = '
         'non-termination). Every PDU <= 253 bytes; for judged start ids (0 or a populated id of the category) the pages '
         'together hold exactly the configured non-empty objects of the category from the start id on, each once with its '
@@ -54,7 +55,9 @@ def _case(draw):
     cat = _category(code)
     in_cat = [i for i in populated if i in cat]
     start = draw(st.one_of(st.just(0), st.sampled_from(in_cat) if in_cat else st.just(0), st.integers(0, 255)))
-    return {'objects': objs, 'read_code': code, 'start': start}
+    return {'objects': objs, 'read_code': code, 'start': start,
+            # how the application hands the identity over
+            'install': draw(st.sampled_from(['setitem', 'setitem', 'ctor+update', 'attrs']))}
 
 
 def _category(code):
@@ -95,8 +98,21 @@ def run_case(case):
     discs = []
     try:
         ident = ModbusControlBlock().Identity
-        for o in objs:
-            ident[o[0]] = o[2] if o[1] == 's' else bytes.fromhex(o[2])
+        install = case.get('install', 'setitem')
+        labels.append('install:' + install)
+        if install == 'ctor+update':
+            # what every server constructor does with its identity= argument
+            from pymodbus.device import ModbusDeviceIdentification
+            given = ModbusDeviceIdentification(info=dict((o[0], o[2] if o[1] == 's' else bytes.fromhex(o[2])) for o in objs))
+            ident.update(given)
+        else:
+            names = ['VendorName', 'ProductCode', 'MajorMinorRevision', 'VendorUrl', 'ProductName', 'ModelName', 'UserApplicationName']
+            for o in objs:
+                v_ = o[2] if o[1] == 's' else bytes.fromhex(o[2])
+                if install == 'attrs' and o[0] < 7:
+                    setattr(ident, names[o[0]], v_)
+                else:
+                    ident[o[0]] = v_
         configured = dict((o[0], _value(o)) for o in objs if len(o[2]) > 0)
         cat = _category(code)
         if code == 4:
